@@ -137,7 +137,9 @@ def run(ctx, rep):
     bad = []
     for lim_none in (True, False):
         for d in (-1, 0, 1):
-            rets = _walk(cfg, lambda e: _safe_atom(e, lim_none, d))
+            from sa.kinds import expanded as _exp
+            # locals that merely name the limit / the hourly total (each read once) are read back
+            rets = _walk(cfg, lambda e: _safe_atom(ast.parse(_exp(sf, e), mode="eval").body, lim_none, d))
             want = {"True"} if (lim_none or d <= 0) else {"False"}
             if rets != want:
                 bad.append("limit None=%s total-limit=%+d -> %s want %s" % (lim_none, d, sorted(rets), sorted(want)))
